@@ -7,6 +7,7 @@
        target     = (0 r t) | (1 a) | (2 a r t) | (3 r) | (4 d) | (5 (subs)) Multi | (6 (subs)) Composite
                   | (7 (subs)) Directional | (8) DataKey | (9) AnnotationData | (10 r b e) | (11 b e with_text)
        value      = (0) | (1 text) | (2 bool) | (3 int) | (4 quarters) | (5 k) NaN/inf/-inf | (6 (values)) | (7 rfc3339)
+                  | (9 neg digits zeros) a whole float: the digits of its shortest representation, then zeros
      config = (ann_iri set_iri res_iri (extra_context ...) auto_generated auto_generator ((uri prefix) ...) template|-1)
      cases  = ((a impl_string|-1 timestamp) ...)   one per exported annotation; timestamp = what this
                                                    call wrote as automatic "generated" value
@@ -18,7 +19,10 @@
      3 the model's string and the real output have the same tokens (layout may differ)
      4 the text targets the view gives = annotation.textselections() through the API
      5 the source/selector objects under "target" of the export (read by serde_json from the real
-       output / by parse_json from the model's string), in order = those text targets *)
+       output / by parse_json from the model's string), in order = those text targets
+     6 the member names of the annotation object and of its body, every compact name prefix:name
+       expanded through the namespaces of the exported @context, = the full predicate IRIs (what the
+       export without namespaces writes): an abbreviation must denote the key's own IRI *)
 From Coq Require Import List ZArith NArith Bool Arith String.
 Import ListNotations.
 From Stam Require Import Base.Sx Model.Json Model.WebAnno Spec.WebAnnoSpec.
@@ -41,6 +45,7 @@ Fixpoint value_of (x : sx) : value :=
           | 3%nat, [z] => VInt (sx_Z z)
           | 4%nat, [z] => VFloat (FQ (sx_Z z))
           | 5%nat, [z] => VFloat (match sx_nat z with 0%nat => FNaN | 1%nat => FInf false | _ => FInf true end)
+          | 9%nat, [n; m; z] => VFloat (FW (sx_bool n) (str_of m) (sx_nat z))
           | 6%nat, [L vs] => VList (map value_of vs)
           | 7%nat, [t] => VDate (str_of t)
           | _, _ => VNull
@@ -118,7 +123,13 @@ Fixpoint tree_sx (j : json) : sx :=
   | JBool b => L [A 1; of_bool b]
   | JNum l =>
       match num_int l with
-      | Some z => L [A 2; A z]
+      | Some z =>
+          (* numbers are compared as numbers; beyond 2^62 (the driver's integers, and past the 53 bits
+             a reader's double keeps anyway) by sign, number of digits and the first 15 digits, so that
+             two literals of one double (4611686018427387904 / 4611686018427388000) are not told apart *)
+          if Z.abs z <? 4611686018427387904 then L [A 2; A z]
+          else let ds := dec_N (Z.abs_N z) in
+               L [A 8; of_bool (z <? 0); of_nat (List.length ds); of_Ns (firstn 15 ds)]
       | None => match num_quarters l with Some x => L [A 3; A x] | None => L [A 4] end
       end
   | JStr s => L [A 5; of_Ns s]
@@ -205,6 +216,81 @@ Definition obs_targets (o : option str) : sx :=
               end
   end.
 
+(* ---- member names expanded through the exported @context ---- *)
+
+Fixpoint ins_str (x : str) (l : list str) : list str :=
+  match l with
+  | [] => [x]
+  | y :: r => if str_eqb x y then l else if str_ltb x y then x :: l else y :: ins_str x r
+  end.
+Definition sort_uniq (l : list str) : list str := fold_left (fun acc x => ins_str x acc) l [].
+
+Fixpoint lookup_str (k : str) (m : list (str * str)) : option str :=
+  match m with
+  | [] => None
+  | (k', v) :: r => if str_eqb k k' then Some v else lookup_str k r
+  end.
+
+(* prefix:name -> namespace IRI ++ name, when the prefix is declared *)
+Definition expand (ctx : list (str * str)) (name : str) : str :=
+  match before_colon name with
+  | Some pre => match lookup_str pre ctx with
+                | Some uri => uri ++ skipn (S (List.length pre)) name
+                | None => name
+                end
+  | None => name
+  end.
+
+(* the prefix declarations of the "@context" member *)
+Definition context_map (m : list (str * json)) : list (str * str) :=
+  match member [64; 99; 111; 110; 116; 101; 120; 116]%N m with
+  | Some (JArr l) =>
+      flat_map (fun x => match x with
+                         | JObj nm => flat_map (fun kv => match snd kv with JStr u => [(fst kv, u)] | _ => [] end) nm
+                         | _ => []
+                         end) l
+  | _ => []
+  end.
+
+Definition names_sx (ctx : list (str * str)) (m : list (str * json)) : sx :=
+  let names mm := L (map of_Ns (sort_uniq (map (fun kv => expand ctx (fst kv)) mm))) in
+  L [names m;
+     match member [98; 111; 100; 121]%N m with Some (JObj bm) => names bm | _ => L [] end].
+
+Definition obs_names (o : option str) : sx :=
+  match o with
+  | None => A (-1)
+  | Some [] => A (-3)
+  | Some s => match parse_json s with
+              | Some j => match norm false j with
+                          | JObj m => names_sx (context_map m) m
+                          | _ => L []
+                          end
+              | None => A (-2)
+              end
+  end.
+
+Definition no_namespaces (c : config) : config :=
+  {| c_ann_iri := c_ann_iri c; c_set_iri := c_set_iri c; c_res_iri := c_res_iri c;
+     c_extra_context := c_extra_context c; c_generated := c_generated c; c_generator := c_generator c;
+     c_namespaces := []; c_template := c_template c |}.
+
+Fixpoint distinct (l : list str) : bool :=
+  match l with [] => true | x :: r => negb (existsb (str_eqb x) r) && distinct r end.
+
+(* what sub-case 6 demands: the names of the export without namespaces; None = not judged (a
+   prefix declared twice, or a name that reads as prefix:name of a declared prefix by accident) *)
+Definition spec_names (st : storev) (c : config) (a : nat) : option sx :=
+  match export_ast st (no_namespaces c) a with
+  | Some (JObj m) =>
+      let ctx := map (fun up => (snd up, fst up)) (c_namespaces c) in
+      let all := map fst m ++ match member [98; 111; 100; 121]%N m with Some (JObj bm) => map fst bm | _ => [] end in
+      if distinct (map fst ctx)
+         && forallb (fun s => str_eqb (expand ctx (uri_to_namespace (c_namespaces c) s)) s) all
+      then Some (names_sx [] m) else None
+  | _ => None
+  end.
+
 Definition run_case (st : storev) (c0 : config) (auto_generated : bool) (x : sx) : list sx :=
   let a := sx_nat (sx_nth 0 x) in
   let c := if auto_generated then set_generated c0 (Some (str_of (sx_nth 2 x))) else c0 in
@@ -214,7 +300,8 @@ Definition run_case (st : storev) (c0 : config) (auto_generated : bool) (x : sx)
   match get_ann st a with
   | None => [triple m1 m1 0; triple (obs_string false impl) (obs_string false impl) 0;
              triple (of_bool (same_tokens impl model)) (A 1) 0; triple (A (-1)) (A (-1)) 0;
-             triple (obs_targets model) (obs_targets model) 0]
+             triple (obs_targets model) (obs_targets model) 0;
+             triple (obs_names model) (obs_names model) 0]
   | Some av =>
       let k := classify st c a av in
       let spec1 :=
@@ -231,7 +318,10 @@ Definition run_case (st : storev) (c0 : config) (auto_generated : bool) (x : sx)
        triple t4 t4 0;
        triple (obs_targets model)
               (if negb (accepted av) || Known_C17_anonymous_target st av then A (-3)
-               else match export_ast st c a with Some _ => t4 | None => obs_targets model end) k]
+               else match export_ast st c a with Some _ => t4 | None => obs_targets model end) k;
+       triple (obs_names model)
+              (if negb (accepted av) then A (-3)
+               else match spec_names st c a with Some x => x | None => obs_names model end) k]
   end.
 
 Definition run_C17 (x : sx) : sx :=
